@@ -1,5 +1,5 @@
 import Cactus.Lemmas.Trace
-import Cactus.Props.C16
+import Cactus.Lemmas.Shared.OneStep   -- `Shared.rcDrop_dead_noop`
 import Cactus.Lemmas.Depth.Main
 import Cactus.Lemmas.Depth.Example
 /-!
@@ -38,7 +38,7 @@ theorem C15_trace_terminates (s : State) (x : Nat) : (cycleRefs s x).outOfFuel =
 the teardown of a group of any size never nests through its own members -/
 theorem C15_member_handles_inert (s : State) (o : Nat) (ob : Obj)
     (hc : s.cell o = some ob) (hd : ob.strong.isDead = true) : (s.rcDrop o).stack = s.stack := by
-  rw [C16_drop_dead_noop s o ob hc hd]
+  rw [Shared.rcDrop_dead_noop s o ob hc hd]
 
 
 /-! ## A collection runs at constant nesting depth (`Cactus.Lemmas.Depth.*`)
